@@ -3,7 +3,7 @@
    decoders append, and the tie between the buffer sizes used in the theorems and the C source. *)
 From Coq Require Import List NArith ZArith Arith Bool Lia ZifyBool ZifyNat ZifyN.
 From Iodine Require Import Generated.SrcConsts Base Codec Hostname DnsName DnsMsg Domain Server
-  ServerSafetyProofs ServerSafetyOps ServerSafetyStep.
+  ServerSafetyProofs ServerSafetyOps ServerSafetyStep ServerSafetyStep2.
 Import ListNotations.
 Local Open Scope N_scope.
 
@@ -104,3 +104,79 @@ Lemma buffer_sizes :
   (src_QUERY_NAME_SIZE - 1 <= src_C05_IN_BUF) /\    (* memcpy(in, q->name, MIN(domain_len, sizeof(in))) *)
   src_QUERY_NAME_SIZE = 256.
 Proof. repeat split; vm_compute; congruence. Qed.
+
+(* ---- sizes of the handshake answers ---------------------------------------------------------------------- *)
+
+(* every answer to a command other than ping ('p') and data (hex digit) is small: at most 2047 bytes
+   (the fragsize probe reply buf[2048], cut to the requested size), the 'Z' echo at most 255, the
+   rest (VACK/VNAK/VFUL, BADLEN/BADIP/..., login reply, codec names) below 200 *)
+Definition ans_le (n : nat) (o : out) : Prop :=
+  match o with OAnswer _ _ _ data _ => (length data <= n)%nat | _ => True end.
+
+Section Small.
+Variable login : list N -> N -> list N.
+Variable unz : list N -> option (list N).
+
+Ltac fc := cbn [snd]; apply Forall_cons; [cbn [ans_le]|apply Forall_nil].
+Ltac sm := cbn [snd]; first [apply Forall_nil | (fc; cbn [length app]; lia)].
+
+Lemma hnr_small c st now rnd q dl :
+  (length (h_name q) <= 255)%nat ->
+  is_letter (chr (firstn dl (h_name q)) 0) 112 = false ->
+  (let c0 := chr (firstn dl (h_name q)) 0 in
+   ((48 <=? c0) && (c0 <=? 57)) || ((97 <=? c0) && (c0 <=? 102)) || ((65 <=? c0) && (c0 <=? 70))) = false ->
+  Forall (ans_le 2047) (snd (handle_null_request login unz c st now rnd q dl)).
+Proof.
+  intros Hq Hp Hd. unfold handle_null_request.
+  destruct (dl <? 2)%nat; [apply Forall_nil|]. cbv zeta in *.
+  set (inb := firstn dl (h_name q)) in *.
+  assert (Hinb : (length inb <= 255)%nat) by (subst inb; rewrite firstn_length; lia).
+  clearbody inb.
+  set (unpacked := unpack_data b32 (N.to_nat 65536) (skipn 1 inb) (dl - 1)). clearbody unpacked.
+  set (c0 := chr inb 0) in *. clearbody c0.
+  set (bhex := ((48 <=? c0) && (c0 <=? 57)) || ((97 <=? c0) && (c0 <=? 102)) || ((65 <=? c0) && (c0 <=? 70))) in *.
+  clearbody bhex.
+  unfold mk_answer, s_BADLEN, s_BADIP, s_BADCODEC, s_BADFRAG, s_LNAK, be32b.
+  destruct (is_letter c0 118).
+  { destruct (_ =? src_PROTOCOL_VERSION); [destruct (find_available_from st now 0)|]; sm. }
+  destruct (is_letter c0 108).
+  { destruct (length unpacked <? 17)%nat; [sm|]. destruct (check_user_and_ip _ _ _ _ _); [sm|].
+    destruct (_ && _); [|sm]. fc. rewrite !app_length. cbn [length].
+    match goal with |- (length (ntoa ?a) + (_ + (length (ntoa ?b) + (_ + (length (dec_int ?x) + (_ + length (dec_int ?y)))))) <= _)%nat =>
+      pose proof (ntoa_len a); pose proof (ntoa_len b); pose proof (dec_int_len x); pose proof (dec_int_len y) end. lia. }
+  destruct (is_letter c0 105).
+  { destruct (check_auth _ _ _ _ _); [sm|]. fc. cbn [length].
+    destruct (a_fam (h_from q) =? AF_INET).
+    - destruct (c_ns_ip c); [rewrite firstn_length; lia|].
+      destruct (h_dest q); [rewrite firstn_length; lia|cbn; lia].
+    - rewrite repeat_length. lia. }
+  destruct (is_letter c0 122); [sm|].
+  destruct (is_letter c0 115).
+  { destruct (dl <? 3)%nat; [sm|]. destruct (check_auth_options _ _ _ _ _); [sm|].
+    repeat (destruct (b32_8to5 (chr inb 2) =? _);
+            [fc; match goal with |- (length (codec_name ?e) <= _)%nat => pose proof (codec_name_len e); lia end|]).
+    sm. }
+  destruct (is_letter c0 111).
+  { destruct (dl <? 3)%nat; [sm|]. destruct (check_auth_options _ _ _ _ _); [sm|].
+    repeat (destruct (is_letter (chr inb 2) _);
+            [fc; cbn [length];
+             try match goal with |- (length (codec_name ?e) <= _)%nat => pose proof (codec_name_len e) end; lia|]).
+    sm. }
+  destruct (is_letter c0 121).
+  { destruct (dl <? 6)%nat; [sm|]. destruct (negb _); [sm|].
+    assert (Hchk : (length src_DOWNCODECCHECK1 <= 2047)%nat) by (apply Nat.leb_le; vm_compute; reflexivity).
+    repeat (destruct (_ && _); [fc; exact Hchk|]). sm. }
+  destruct (is_letter c0 114).
+  { destruct (dl <? 16)%nat; [sm|]. destruct (check_auth _ _ _ _ _); [sm|].
+    set (req := _ + _ + _). clearbody req.
+    destruct ((req <? 2) || (2047 <? req)) eqn:E; [sm|]. fc.
+    pose proof (probe_reply_len req (rnd mod 256)). lia. }
+  destruct (is_letter c0 110).
+  { destruct (length unpacked <? 3)%nat; [sm|]. destruct (check_auth_options _ _ _ _ _); [sm|].
+    destruct (_ <? 2); sm. }
+  rewrite Hp, Hd. apply Forall_nil.
+Qed.
+
+End Small.
+
+(* EOF *)
